@@ -106,3 +106,85 @@ Print Assumptions operator_table_is_the_repositorys.
 Theorem operator_of_its_name : forall o, op_of_name (op_name o) = Some o.
 Proof. exact GeneratedTies.operator_of_its_name. Qed.
 Print Assumptions operator_of_its_name.
+
+(** * shorthands read as their long forms (proofs/Shorthand.v)
+    For every operand e of the class above, in every position (followed by a delimiter; [plain_next]: what follows the
+    next gap is neither '[' nor '@', which would continue the expression): *)
+From WalModel.proofs Require Import Shorthand.
+
+Theorem quote_is_quote : forall e rest f, simple e = true -> (5 * vsize e + 8 <= f)%nat -> delim rest -> plain_next (inter rest) ->
+  p_sexpr (S (S (S (S f)))) ("'" ++ show e ++ rest) = ROk (WL [VOp OQuote; e]) (inter rest).
+Proof. exact quote_reads. Qed.
+Print Assumptions quote_is_quote.
+
+Theorem backquote_is_quasiquote : forall e rest f, simple e = true -> (5 * vsize e + 8 <= f)%nat -> delim rest -> plain_next (inter rest) ->
+  p_sexpr (S (S (S (S f)))) ("`" ++ show e ++ rest) = ROk (WL [VOp OQuasiquote; e]) (inter rest).
+Proof. exact quasiquote_reads. Qed.
+Print Assumptions backquote_is_quasiquote.
+
+Theorem comma_is_unquote : forall e rest f, simple e = true -> (5 * vsize e + 8 <= f)%nat -> delim rest -> plain_next (inter rest) ->
+  p_sexpr (S (S (S (S f)))) ("," ++ show e ++ rest) = ROk (VUnq e) (inter rest).
+Proof. exact unquote_reads. Qed.
+Print Assumptions comma_is_unquote.
+
+Theorem comma_at_is_unquote_splice : forall e rest f, simple e = true -> (5 * vsize e + 8 <= f)%nat -> delim rest -> plain_next (inter rest) ->
+  p_sexpr (S (S (S (S f)))) (",@" ++ show e ++ rest) = ROk (VUnqS e) (inter rest).
+Proof. exact unquote_splice_reads. Qed.
+Print Assumptions comma_at_is_unquote_splice.
+
+Theorem tilde_is_resolve_scope : forall n rest f, sym_shaped n = true -> delim rest ->
+  p_sexpr (S (S (S f))) ("~" ++ n ++ rest) = ROk (WL [VOp OResolveScope; VSym n None]) (inter rest).
+Proof. exact scoped_reads. Qed.
+Print Assumptions tilde_is_resolve_scope.
+
+Theorem hash_is_resolve_group : forall n rest f, sym_shaped n = true -> delim rest -> String.eqb n "t" = false -> String.eqb n "f" = false ->
+  p_sexpr (S (S (S f))) ("#" ++ n ++ rest) = ROk (WL [VOp OResolveGroup; VSym n None]) (inter rest).
+Proof. exact grouped_reads. Qed.
+Print Assumptions hash_is_resolve_group.
+
+Theorem at_is_reval : forall e rest f, simple e = true -> (5 * vsize e + 8 <= f)%nat -> delim rest -> forall k, simple (VInt k) = true ->
+  p_sexpr (S (S (S f))) (show e ++ "@" ++ dec_of_Z k ++ rest) = ROk (WL [VOp OReval; e; VInt k]) (inter rest).
+Proof. exact reval_reads. Qed.
+Print Assumptions at_is_reval.
+
+Theorem bracket_is_slice : forall e rest f, simple e = true -> (5 * vsize e + 8 <= f)%nat -> delim rest -> forall i, simple (VInt i) = true ->
+  p_sexpr (S (S (S f))) (show e ++ "[" ++ dec_of_Z i ++ "]" ++ rest) = ROk (WL [VOp OSlice; e; VInt i]) (inter rest).
+Proof. exact slice1_reads. Qed.
+Print Assumptions bracket_is_slice.
+
+Theorem bracket_range_is_slice : forall e rest f, simple e = true -> (5 * vsize e + 8 <= f)%nat -> delim rest ->
+  forall h l, simple (VInt h) = true -> simple (VInt l) = true ->
+  p_sexpr (S (S (S f))) (show e ++ "[" ++ dec_of_Z h ++ ":" ++ dec_of_Z l ++ "]" ++ rest)
+  = ROk (WL [VOp OSlice; e; VInt h; VInt l]) (inter rest).
+Proof. exact slice2_reads. Qed.
+Print Assumptions bracket_range_is_slice.
+
+(** as whole texts; quote forms are also what the printer writes for (quote e) / (quasiquote e): a round trip *)
+Theorem quote_form_round_trip : forall e, simple e = true ->
+  wal_str0 (WL [VOp OQuote; e]) = Some ("'" ++ show e) /\ read_sexpr ("'" ++ show e) = ROk (WL [VOp OQuote; e]) "".
+Proof. exact quote_roundtrip. Qed.
+Print Assumptions quote_form_round_trip.
+
+Theorem quasiquote_form_round_trip : forall e, simple e = true ->
+  wal_str0 (WL [VOp OQuasiquote; e]) = Some ("`" ++ show e) /\ read_sexpr ("`" ++ show e) = ROk (WL [VOp OQuasiquote; e]) "".
+Proof. exact quasiquote_roundtrip. Qed.
+Print Assumptions quasiquote_form_round_trip.
+
+Theorem offset_text : forall e k, simple e = true -> simple (VInt k) = true ->
+  read_sexpr (show e ++ "@" ++ dec_of_Z k) = ROk (WL [VOp OReval; e; VInt k]) "".
+Proof. intros e k He Hk. exact (reval_text_reads e He k Hk). Qed.
+Print Assumptions offset_text.
+
+Theorem slice_text : forall e h l, simple e = true -> simple (VInt h) = true -> simple (VInt l) = true ->
+  read_sexpr (show e ++ "[" ++ dec_of_Z h ++ ":" ++ dec_of_Z l ++ "]") = ROk (WL [VOp OSlice; e; VInt h; VInt l]) "".
+Proof. intros e h l He Hh Hl. exact (slice_text_reads e He h l Hh Hl). Qed.
+Print Assumptions slice_text.
+
+Theorem bit_text : forall e i, simple e = true -> simple (VInt i) = true ->
+  read_sexpr (show e ++ "[" ++ dec_of_Z i ++ "]") = ROk (WL [VOp OSlice; e; VInt i]) "".
+Proof. intros e i He Hi. exact (bit_text_reads e He i Hi). Qed.
+Print Assumptions bit_text.
+
+Theorem inter_never_leaves_a_gap : forall s, inter (inter s) = inter s.
+Proof. exact inter_idempotent. Qed.
+Print Assumptions inter_never_leaves_a_gap.
